@@ -136,7 +136,7 @@ def scenario_1d_pretrunc(tid, grid, all_atoms, atoms, cut, rng, a_u, repr_name, 
     return t
 
 
-def scenario_nd(tid, kind, grid, atoms, d, reprs, a_us, lattice=True, prior_grid=None, with_drift=True):
+def scenario_nd(tid, kind, grid, atoms, d, reprs, a_us, lattice=True, prior_grid=None, with_drift=True, fvs=None):
     from rpylib.distribution.sampling import SamplingMethod
     from rpylib.model.levymodel.levymodel import LevyRepresentation
     from rpylib.process.markovchain.markovchainlevycopula import MarkovChainLevyCopula
@@ -156,6 +156,11 @@ def scenario_nd(tid, kind, grid, atoms, d, reprs, a_us, lattice=True, prior_grid
     try:
         model = atomic.atom_copula_model(atoms, d, drifts=[x * U for x in a_us],
                                          representations=[LevyRepresentation[r] for r in reprs], unit=(U if lattice else None))
+        if fvs is not None:
+            # margins of different variation (activity index 0.5 for finite, 1.5 for infinite variation)
+            for mm, fv in zip(model.models, fvs):
+                nu = mm.levy_triplet.nu
+                nu._fv, nu._bg = bool(fv), (0.5 if fv else 1.5)
         if prior_grid is not None:
             MarkovChainLevyCopula(model, prior_grid, SamplingMethod.BINARYSEARCHTREEADAPTED).initialisation(product_for_init())
         pinv = MarkovChainLevyCopula(model, grid, SamplingMethod.INVERSION)
@@ -351,6 +356,15 @@ def main():
         atoms = atomic.joint_atoms_in_box([-32] * d, [32] * d, d, rng, 50, wmax=4)
         traces.append(scenario_nd(tid(), "copula2d:reuse", wide, atoms, d, [rng.choice(REPRS) for _ in range(d)],
                                   [rng.randint(-9, 9) for _ in range(d)], prior_grid=narrow))
+    # margins of different variation in one copula chain (declared in the canonical or the centred representation)
+    for fvs in ((True, False), (False, True), (False, False)):
+        d, nl, nr, step = 2, 5, 5, 16
+        axis = np.array([j * step * U for j in range(-nl, nr + 1)])
+        grid = CTMCGrid(h=step * U, origin_coordinate=nl, axes=[axis.copy(), axis.copy()])
+        pts = list(range(-79, 80, 6))
+        atoms = [((a, b), rng.randint(1, 3)) for a in pts for b in pts if rng.random() < 0.3]
+        traces.append(scenario_nd(tid(), "copula2d:mixedvar", grid, atoms, d, [rng.choice(["ONEONE", "CENTER"]) for _ in range(d)],
+                                  [rng.randint(-9, 9) for _ in range(d)], fvs=fvs))
     # joint atoms also BEYOND the truncation box (in one or in all coordinates): they belong to no cell and not to the
     # intensity (rates and intensity only; the drift of the margins is judged on measures supported by the box)
     for rep in range(3 if quick else 8):
